@@ -110,6 +110,8 @@ def needs_disp_band(name) -> bool:
 def call(name, reader, outdir, params, gulp, start, nsamps) -> list:
     """Invoke the transform; returns the list of output paths it reported."""
     kw = {"gulp": gulp, "start": start, "nsamps": nsamps, "quiet": True}
+    if gulp is None:  # the gulp argument left at its default
+        del kw["gulp"]
     if name == "invert_freq":
         return [reader.invert_freq(outfile_name=os.path.join(outdir, "out_inv.fil"), **kw)]
     if name == "apply_channel_mask":
@@ -117,7 +119,8 @@ def call(name, reader, outdir, params, gulp, start, nsamps) -> list:
                                           outfile_name=os.path.join(outdir, "out_mask.fil"), **kw)]
     if name == "extract_samps":
         n = nsamps if nsamps is not None else reader.header.nsamples - start
-        return [reader.extract_samps(start, n, outfile_name=os.path.join(outdir, "out_samps.fil"), gulp=gulp, quiet=True)]
+        kws = {"quiet": True} if gulp is None else {"gulp": gulp, "quiet": True}
+        return [reader.extract_samps(start, n, outfile_name=os.path.join(outdir, "out_samps.fil"), **kws)]
     if name == "extract_chans":
         return list(reader.extract_chans(np.array(params["chans"]), outfile_base=os.path.join(outdir, "out"),
                                          batch_size=params["batch_size"], **kw))
